@@ -11,6 +11,7 @@
 //
 // Parts (--arg only=<part>): split join trim misc comment args random printf wprintf shlex
 #include <ctype.h>
+#include <errno.h>
 #include <wchar.h>
 
 #include <algorithm>
@@ -33,6 +34,9 @@ using R::esc_list;
 using R::ms_str;
 
 static vf::Ctx* C;
+
+// A different stale errno is left behind right before every call into phosg (see common.hh).
+#define PZ() vf::poison_errno()
 
 // ================================================================================================
 // vswprintf monitor (linked with -Wl,--wrap=vswprintf): observes how wstring_vprintf drives
@@ -257,6 +261,7 @@ static void join_one(int ci, const Cont& items, const vector<string>& flat) {
   do {                                                                            \
     C->evaluations++;                                                             \
     C->crumb_n("join", ci, dk, flat.size());                                      \
+    PZ();                                                                         \
     string got = phosg::join(items, delim_lvalue);                                \
     string want = R::join_ref(flat.begin(), flat.end(), string(delim_as_string)); \
     if (got != want) bad(dk, show, got, want);                                    \
@@ -280,6 +285,7 @@ static void join_one(int ci, const Cont& items, const vector<string>& flat) {
 #undef JOIN_CASE
   // delimiter-less overload
   C->evaluations++;
+  PZ();
   string got = phosg::join(items);
   string want;
   for (const auto& it : flat) want += it;
@@ -356,6 +362,7 @@ static void composite_join(const char* what, const string& s, char d, size_t ms,
   switch (d == '\0' ? (rot % 2) * 2 : rot % 3) {
     case 0: {
       char dd = d;
+      PZ();
       joined = phosg::join(pieces, dd);
       kind = "char";
       break;
@@ -363,12 +370,14 @@ static void composite_join(const char* what, const string& s, char d, size_t ms,
     case 1: {
       char z[2] = {d, 0};
       const char* p = z;
+      PZ();
       joined = phosg::join(pieces, p);
       kind = "const char*";
       break;
     }
     default: {
       string ds(1, d);
+      PZ();
       joined = phosg::join(pieces, ds);
       kind = "std::string";
       break;
@@ -392,6 +401,7 @@ static void split_case(const string& s, const wstring* ws, char d, size_t ms, co
   Shape sh = shape_of(s.size(), sep, nsep);
   C->evaluations++;
   C->crumb_n("split", crumb_id, (uint8_t)d, ms, s.size());
+  PZ();
   vector<string> got = phosg::split(s, d, ms);
   bool ok = judge_pieces("split", s, d, ms, got, sep, nsep, sh);
   split_cls[OP_SPLIT][sh][ms_class(ms, nsep)]++;
@@ -401,6 +411,7 @@ static void split_case(const string& s, const wstring* ws, char d, size_t ms, co
   if (ws) {
     C->evaluations++;
     C->crumb_n("wsplit", crumb_id, (uint8_t)d, ms, s.size());
+    PZ();
     vector<wstring> wgot = phosg::split(*ws, (wchar_t)(unsigned char)d, ms);
     judge_pieces("wsplit", *ws, (wchar_t)(unsigned char)d, ms, wgot, sep, nsep, sh);
     split_cls[OP_WSPLIT][sh][ms_class(ms, nsep)]++;
@@ -417,6 +428,7 @@ static void split_case(const string& s, const wstring* ws, char d, size_t ms, co
     vector<string> cgot;
     bool threw = false;
     try {
+      PZ();
       cgot = phosg::split_context(s, d, ms);
     } catch (const runtime_error&) {
       threw = true;
@@ -515,6 +527,7 @@ static void trim_one(const string& s, uint64_t id, bool all_offsets, vf::Rng* r,
     C->evaluations++;                                                                                             \
     C->crumb_n(name, id, s.size());                                                                               \
     string t = s;                                                                                                 \
+    PZ();                                                                                                         \
     fn(t);                                                                                                        \
     string want = ref;                                                                                            \
     if (t != want)                                                                                                \
@@ -529,6 +542,7 @@ static void trim_one(const string& s, uint64_t id, bool all_offsets, vf::Rng* r,
   {
     C->evaluations++;
     wstring w = widen(s), w0 = w;
+    PZ();
     phosg::strip_trailing_zeroes(w);
     if (w != R::strip_trailing_zeroes(w0))
       C->violation(fmt("strip_trailing_zeroes-wstring:%s", shp), "wide result differs", fmt("strip_trailing_zeroes(%s) gave %s", esc(w0).c_str(), esc(w).c_str()));
@@ -544,7 +558,12 @@ static void trim_one(const string& s, uint64_t id, bool all_offsets, vf::Rng* r,
     size_t off = all_offsets ? k : (k == 0 ? 0 : k == 1 ? s.size() : (size_t)r->below(s.size() + 1));
     C->evaluations += 3;
     C->crumb_n("skip(string)", id, s.size(), off);
-    size_t a = phosg::skip_whitespace(s, off), b = phosg::skip_non_whitespace(s, off), w = phosg::skip_word(s, off);
+    PZ();
+    size_t a = phosg::skip_whitespace(s, off);
+    PZ();
+    size_t b = phosg::skip_non_whitespace(s, off);
+    PZ();
+    size_t w = phosg::skip_word(s, off);
     size_t ra = R::skip_ws(s.data(), s.size(), off), rb = R::skip_non_ws(s.data(), s.size(), off), rw = R::skip_word(s.data(), s.size(), off);
     if (a != ra) C->violation("skip_whitespace:string", "offset differs from reference", fmt("skip_whitespace(string %s, %zu) = %zu, expected %zu", esc(s).c_str(), off, a, ra));
     if (b != rb) C->violation("skip_non_whitespace:string", "offset differs from reference", fmt("skip_non_whitespace(string %s, %zu) = %zu, expected %zu", esc(s).c_str(), off, b, rb));
@@ -552,8 +571,11 @@ static void trim_one(const string& s, uint64_t id, bool all_offsets, vf::Rng* r,
     if (off <= clen) {
       C->evaluations += 3;
       C->crumb_n("skip(cstr)", id, clen, off);
+      PZ();
       a = phosg::skip_whitespace(cbuf, off);
+      PZ();
       b = phosg::skip_non_whitespace(cbuf, off);
+      PZ();
       w = phosg::skip_word(cbuf, off);
       ra = R::skip_ws(cbuf, clen, off);
       rb = R::skip_non_ws(cbuf, clen, off);
@@ -595,6 +617,7 @@ static void comment_one(const string& s, uint64_t id, map<string, uint64_t>& cls
     string t = s;
     bool threw = false;
     try {
+      PZ();
       phosg::strip_multiline_comments(t, allow != 0);
     } catch (const runtime_error&) {
       threw = true;
@@ -637,7 +660,10 @@ static void exh_comment() {
 static void prefix_pair(const string& s, const string& t, map<string, uint64_t>& cls) {
   C->evaluations += 2;
   C->crumb_n("starts/ends_with", s.size(), t.size());
-  bool a = phosg::starts_with(s, t), b = phosg::ends_with(s, t);
+  PZ();
+  bool a = phosg::starts_with(s, t);
+  PZ();
+  bool b = phosg::ends_with(s, t);
   bool ra = R::starts_with(s, t), rb = R::ends_with(s, t);
   const char* rel = t.empty() ? "empty-affix" : t.size() > s.size() ? "affix-longer" : t.size() == s.size() ? "same-length" : "shorter";
   if (a != ra) C->violation(fmt("starts_with:%s", rel), "differs from comparing the leading substring", fmt("starts_with(%s, %s) = %d", esc(s).c_str(), esc(t).c_str(), a));
@@ -649,7 +675,10 @@ static void prefix_pair(const string& s, const string& t, map<string, uint64_t>&
 static void case_one(const string& s) {
   C->evaluations += 2;
   C->crumb_n("toupper/tolower", s.size(), s.empty() ? 0 : (uint8_t)s[0]);
-  string u = phosg::toupper(s), l = phosg::tolower(s);
+  PZ();
+  string u = phosg::toupper(s);
+  PZ();
+  string l = phosg::tolower(s);
   if (u != R::upper(s)) C->violation("toupper:value", "differs from per-byte C-locale toupper", fmt("toupper(%s) = %s", esc(s).c_str(), esc(u).c_str()));
   if (l != R::lower(s)) C->violation("tolower:value", "differs from per-byte C-locale tolower", fmt("tolower(%s) = %s", esc(s).c_str(), esc(l).c_str()));
 }
@@ -657,6 +686,7 @@ static void case_one(const string& s) {
 static void replace_one(const string& s, const string& target, const string& repl, map<string, uint64_t>& cls) {
   C->evaluations++;
   C->crumb_n("str_replace_all", s.size(), target.size(), repl.size());
+  PZ();
   string got = phosg::str_replace_all(s, target.c_str(), repl.c_str());
   string want = R::replace_all(s, target, repl);
   size_t hits = 0;
@@ -721,6 +751,7 @@ static void args_total(const string& s, uint64_t id, map<string, uint64_t>& cls)
   C->crumb_n("split_args", id, s.size());
   const char* res = "returned";
   try {
+    PZ();
     vector<string> v = phosg::split_args(s);
     (void)v;
   } catch (const runtime_error&) {
@@ -809,6 +840,7 @@ static void shlex_part() {
     bool threw = false;
     string msg;
     try {
+      PZ();
       got = phosg::split_args(in);
     } catch (const runtime_error& e) {
       threw = true;
@@ -987,6 +1019,7 @@ static void random_part(vf::Rng& r) {
       size_t ms = r.chance(1, 2) ? 0 : r.below(nsep + 2);
       C->evaluations++;
       C->crumb_n("wsplit-wide", id, (uint64_t)d, ms, len);
+      PZ();
       vector<wstring> got = phosg::split(ws, d, ms);
       judge_pieces("wsplit", ws, d, ms, got, sep, nsep, sh);
       split_cls[OP_WSPLIT][sh][ms_class(ms, nsep)]++;
@@ -1033,6 +1066,7 @@ static void random_part(vf::Rng& r) {
         wstring w = widen(s), w0 = w;
         bool unterminated;
         wstring want = R::strip_comments(w0, unterminated);
+        PZ();
         phosg::strip_multiline_comments(w, true);
         if (w != want) C->violation("strip_multiline_comments-wstring:value", "wide result differs from reference", esc(w0));
         cls["comments:wstring"]++;
@@ -1103,21 +1137,36 @@ static const char* len_class(size_t n) {
   return n == 0 ? "len0" : n < 1024 ? "len<1Ki" : n == 1024 ? "len1Ki" : n < 65536 ? "len<64Ki" : n < (1u << 20) ? "len<1Mi" : "len>=1Mi";
 }
 
-static void printf_check(const char* what, const string& got, const string& got_v, const string& want) {
-  C->evaluations += 2;
-  if (got != want)
-    C->violation(fmt("string_printf:%s", len_class(want.size())), "result differs from vsnprintf into an exact-size buffer",
-        fmt("string_printf(%s): got %zu bytes %s, expected %zu bytes %s", what, got.size(), esc(got, 40).c_str(), want.size(), esc(want, 40).c_str()));
-  if (got_v != want)
-    C->violation(fmt("string_vprintf:%s", len_class(want.size())), "result differs from vsnprintf into an exact-size buffer",
-        fmt("string_vprintf(%s): got %zu bytes, expected %zu bytes", what, got_v.size(), want.size()));
-  C->cls(fmt("printf:%s", len_class(want.size())));
+// Every printf-to-string case runs once per stale errno value: errno is set to the value immediately
+// before the call, as an earlier, unrelated and already handled libc failure on the same thread would
+// leave it.  The expected result never depends on it.
+static const int STALE_ERRNO[] = {0, EILSEQ, ERANGE, EINVAL, ENOMEM};
+static const char* errno_name(int e) {
+  return e == 0 ? "0" : e == EILSEQ ? "EILSEQ" : e == ERANGE ? "ERANGE" : e == EINVAL ? "EINVAL" : e == ENOMEM ? "ENOMEM" : "other";
+}
+
+static void printf_check(const char* fn, const char* what, int stale, bool threw, const string& threw_what, const string& got, const string& want) {
+  C->evaluations++;
+  if (threw)
+    C->violation(fmt("%s:throws-on-valid-input:stale-errno=%s", fn, errno_name(stale)), "a valid call threw: " + threw_what,
+        fmt("errno = %s; %s(%s): expected %zu bytes", errno_name(stale), fn, what, want.size()));
+  else if (got != want)
+    C->violation(fmt("%s:%s%s", fn, len_class(want.size()), stale ? fmt(":stale-errno=%s", errno_name(stale)).c_str() : ""),
+        "result differs from vsnprintf into an exact-size buffer",
+        fmt("errno = %s; %s(%s): got %zu bytes %s, expected %zu bytes %s", errno_name(stale), fn, what, got.size(), esc(got, 40).c_str(), want.size(),
+            esc(want, 40).c_str()));
 }
 
 #pragma GCC diagnostic push
 #pragma GCC diagnostic ignored "-Wformat-zero-length"
 static void printf_part(vf::Rng& r) {
-  vector<size_t> lens = {0, 1, 2, 15, 16, 255, 1023, 1024, 1025, 4095, 4096, 4097, 65535, 65536, 65537, (1u << 20) - 1, 1u << 20, (1u << 20) + 1};
+  // every length up to 72 (both sides of 2*strlen(fmt)+16 for each format used), then both sides of 0x400, 4 KiB,
+  // 64 KiB and 1 MiB
+  vector<size_t> lens;
+  for (size_t n = 0; n <= 72; n++) lens.push_back(n);
+  for (size_t n : {255u, 256u, 1007u, 1008u, 1009u, 1022u, 1023u, 1024u, 1025u, 1026u, 2047u, 2048u, 2049u, 4095u, 4096u, 4097u, 65535u, 65536u, 65537u,
+           (1u << 20) - 1, 1u << 20, (1u << 20) + 1})
+    lens.push_back(n);
   size_t extra = C->qt<size_t>(16, 200);
   vf::Rng lr(C->seed * 31 + 5);  // same lengths in every shard; cases are partitioned by index
   for (size_t i = 0; i < extra; i++) lens.push_back(lr.below(lr.chance(1, 4) ? (1u << 20) : 70000));
@@ -1129,7 +1178,33 @@ static void printf_part(vf::Rng& r) {
     const char* ap = a.c_str();
     int iL = (int)L;
     C->crumb_n("string_printf", L);
-#define PF(desc, ...) printf_check(fmt("%s, L=%zu", desc, L).c_str(), phosg::string_printf(__VA_ARGS__), via_vprintf(__VA_ARGS__), R::format_exact(__VA_ARGS__))
+#define PF(desc, ...)                                                                                  \
+  do {                                                                                                 \
+    string want = R::format_exact(__VA_ARGS__);                                                        \
+    string what = fmt("%s, L=%zu", desc, L);                                                           \
+    for (int stale : STALE_ERRNO) {                                                                    \
+      string got, why;                                                                                 \
+      bool threw = false;                                                                              \
+      try {                                                                                            \
+        errno = stale;                                                                                 \
+        got = phosg::string_printf(__VA_ARGS__);                                                       \
+      } catch (const exception& e) {                                                                   \
+        threw = true;                                                                                  \
+        why = e.what();                                                                                \
+      }                                                                                                \
+      printf_check("string_printf", what.c_str(), stale, threw, why, got, want);                       \
+      threw = false;                                                                                   \
+      try {                                                                                            \
+        errno = stale;                                                                                 \
+        got = via_vprintf(__VA_ARGS__);                                                                \
+      } catch (const exception& e) {                                                                   \
+        threw = true;                                                                                  \
+        why = e.what();                                                                                \
+      }                                                                                                \
+      printf_check("string_vprintf", what.c_str(), stale, threw, why, got, want);                      \
+      C->cls(fmt("printf:errno-%s:%s", errno_name(stale), len_class(want.size())));                    \
+    }                                                                                                  \
+  } while (0)
     PF("\"%s\", str(L)", "%s", ap);
     PF("\"<%s|%s>\", str(L), str(L)", "<%s|%s>", ap, ap);
     PF("\"[%*d]\", L, 42", "[%*d]", iL, 42);
@@ -1139,15 +1214,14 @@ static void printf_part(vf::Rng& r) {
     PF("\"a%cb%s\", 0, str(L)", "a%cb%s", 0, ap);
     PF("\"%s%%%c\", str(L), 0", "%s%%%c", ap, 0);
     PF("\"%0*llx\", L, ~0ull", "%0*llx", iL, ~0ull);
+    if (li == 3) {
+      PF("\"\"", "");
+      PF("\"%%\"", "%%");
+      PF("\"%s %lu 0x%04hX\"", "%s %lu 0x%04hX", "lolz", 1000ul, (unsigned short)0x4F);
+    }
 #undef PF
   }
-  if (C->mine(3)) {
-    printf_check("\"\"", phosg::string_printf(""), via_vprintf(""), R::format_exact(""));
-    printf_check("\"%%\"", phosg::string_printf("%%"), via_vprintf("%%"), R::format_exact("%%"));
-    printf_check("\"%s %lu 0x%04hX\"", phosg::string_printf("%s %lu 0x%04hX", "lolz", 1000ul, (unsigned short)0x4F),
-        via_vprintf("%s %lu 0x%04hX", "lolz", 1000ul, (unsigned short)0x4F), R::format_exact("%s %lu 0x%04hX", "lolz", 1000ul, (unsigned short)0x4F));
-  }
-  C->sample("string_printf/string_vprintf: %s, %*d, %.*f, %.*s, %c with NUL, producing 0,1,1023,1024,1025,65536,2^20(+-1) bytes vs vsnprintf into an exact-size buffer");
+  C->sample("string_printf/string_vprintf under stale errno {0,EILSEQ,ERANGE,EINVAL,ENOMEM}: %s, %*d, %.*f, %.*s, %c with NUL, producing 0..72, 1023..1025, 4 KiB, 64 KiB, 2^20(+-1) bytes vs vsnprintf into an exact-size buffer");
 }
 #pragma GCC diagnostic pop
 
@@ -1165,22 +1239,41 @@ static wstring wformat_ref(size_t cap, const wchar_t* f, ...) {
   return buf;
 }
 
-static void wprintf_check(const string& what, size_t fmt_len, const wstring& got, const wstring& want) {
+static void wprintf_check(const string& what, size_t fmt_len, int stale, bool threw, const string& threw_what, const wstring& got, const wstring& want) {
   C->evaluations++;
-  // input shape, independent of how the implementation sizes its buffer
-  const char* fit = want.size() <= fmt_len ? "result-not-longer-than-format" : want.size() < 2 * fmt_len ? "result-below-2x-format" : "result-at-least-2x-format";
+  // input shape relative to the format length (2*len and 2*len+16 are first guesses an implementation is likely to make)
+  const char* fit = want.size() <= fmt_len ? "result-not-longer-than-format"
+      : want.size() < 2 * fmt_len         ? "result-below-2x-format"
+      : want.size() < 2 * fmt_len + 16    ? "result-below-2x-format+16"
+                                          : "result-at-least-2x-format+16";
+  string pre = fmt("errno = %s; ", errno_name(stale));
   if (W.verdict)
     C->violation(fmt("wstring_printf:%s", W.verdict),
         "wstring_vprintf retries vswprintf in a way that can never succeed (it would spin forever without the monitor)",
-        fmt("wstring_printf(%s): expected %zu wide chars; %u vswprintf attempts observed", what.c_str(), want.size(), W.calls));
+        pre + fmt("wstring_printf(%s): expected %zu wide chars; %u vswprintf attempts observed", what.c_str(), want.size(), W.calls));
+  else if (threw)
+    C->violation(fmt("wstring_printf:throws-on-valid-input:stale-errno=%s", errno_name(stale)), "a valid call threw: " + threw_what,
+        pre + fmt("wstring_printf(%s): expected %zu wide chars %s; %u vswprintf attempts observed", what.c_str(), want.size(), esc(want, 30).c_str(), W.calls));
   else if (got != want)
-    C->violation(fmt("wstring_printf:value:%s", fit), "result differs from vswprintf into a large enough buffer",
-        fmt("wstring_printf(%s): got %zu chars %s, expected %zu chars %s", what.c_str(), got.size(), esc(got, 30).c_str(), want.size(), esc(want, 30).c_str()));
+    C->violation(fmt("wstring_printf:value:%s%s", fit, stale ? fmt(":stale-errno=%s", errno_name(stale)).c_str() : ""),
+        "result differs from vswprintf into a large enough buffer",
+        pre + fmt("wstring_printf(%s): got %zu chars %s, expected %zu chars %s", what.c_str(), got.size(), esc(got, 30).c_str(), want.size(), esc(want, 30).c_str()));
   C->cls(fmt("wprintf:%s:%s", fit, len_class(want.size())));
+  C->cls(fmt("wprintf:errno-%s:%s", errno_name(stale), fit));
 }
 
 static void wprintf_part() {
-  vector<size_t> lens = {0, 1, 2, 3, 5, 6, 7, 8, 9, 100, 1023, 1024, 1025, 65536, 1u << 18};
+  // every length up to 80 (both sides of 2*wcslen(fmt) and 2*wcslen(fmt)+16 for each format), both sides of
+  // 0x400 / 0x800 and the powers of two a doubling buffer passes through, up to 2^18 (1 MiB) / 2^20 wide chars
+  vector<size_t> lens;
+  for (size_t n = 0; n <= 80; n++) lens.push_back(n);
+  for (size_t n : {100u, 127u, 128u, 129u, 255u, 256u, 257u, 1007u, 1008u, 1023u, 1024u, 1025u, 2047u, 2048u, 2049u, 4096u, 65535u, 65536u, 65537u,
+           (1u << 18) - 1, 1u << 18})
+    lens.push_back(n);
+  if (C->thorough()) {
+    lens.push_back((1u << 20) - 1);
+    lens.push_back(1u << 20);
+  }
   for (size_t li = 0; li < lens.size(); li++) {
     if (!C->mine(li)) continue;
     size_t L = lens[li];
@@ -1189,18 +1282,32 @@ static void wprintf_part() {
     size_t cap = 2 * L + 64;
 #define WPF_FIRST_(a, ...) a
 #define WPF_FIRST(...) WPF_FIRST_(__VA_ARGS__, 0)
-#define WPF(desc, ...)                                                              \
-  do {                                                                              \
-    C->crumb("wstring_printf(%s) L=%zu", desc, L);                                  \
-    W = WMon();                                                                     \
-    W.active = true;                                                                \
-    wstring got = phosg::wstring_printf(__VA_ARGS__);                               \
-    W.active = false;                                                               \
-    wprintf_check(fmt("%s, L=%zu", desc, L), wcslen(WPF_FIRST(__VA_ARGS__)), got, wformat_ref(cap, __VA_ARGS__)); \
+#define WPF(desc, ...)                                                                                   \
+  do {                                                                                                   \
+    wstring want = wformat_ref(cap, __VA_ARGS__);                                                        \
+    string what = fmt("%s, L=%zu", desc, L);                                                             \
+    for (int stale : STALE_ERRNO) {                                                                      \
+      C->crumb("errno=%s wstring_printf(%s) L=%zu", errno_name(stale), desc, L);                         \
+      W = WMon();                                                                                        \
+      W.active = true;                                                                                   \
+      wstring got;                                                                                       \
+      string why;                                                                                        \
+      bool threw = false;                                                                                \
+      try {                                                                                              \
+        errno = stale;                                                                                   \
+        got = phosg::wstring_printf(__VA_ARGS__);                                                        \
+      } catch (const exception& e) {                                                                     \
+        threw = true;                                                                                    \
+        why = e.what();                                                                                  \
+      }                                                                                                  \
+      W.active = false;                                                                                  \
+      wprintf_check(what, wcslen(WPF_FIRST(__VA_ARGS__)), stale, threw, why, got, want);                 \
+    }                                                                                                    \
   } while (0)
     WPF("L\"%ls\", wstr(L)", L"%ls", a.c_str());
     WPF("L\"[%*d]\", L, 42", L"[%*d]", (int)L, 42);
     WPF("L\"%ls=%d\", wstr(L), 12345", L"%ls=%d", a.c_str(), 12345);
+    WPF("L\"%-*ls|\", L, L\"x\"", L"%-*ls|", (int)L, L"x");
     if (li == 0) {
       WPF("L\"\"", L"");
       WPF("L\"abc\"", L"abc");
@@ -1212,7 +1319,7 @@ static void wprintf_part() {
     }
 #undef WPF
   }
-  C->sample("wstring_printf: L\"%ls\", L\"[%*d]\", L\"%ls=%d\", L\"\" producing 0..2^18 wide chars vs vswprintf into a large buffer; vswprintf calls monitored");
+  C->sample("wstring_printf under stale errno {0,EILSEQ,ERANGE,EINVAL,ENOMEM}: L\"%ls\", L\"[%*d]\", L\"%ls=%d\", L\"%-*ls|\", L\"\" producing 0..80, 1023..1025, 2047..2049, 65536, 2^18 (2^20 thorough) wide chars vs vswprintf into a large buffer; vswprintf calls monitored (the monitor never touches errno)");
 }
 
 // ================================================================================================
